@@ -313,6 +313,7 @@ func init() {
 	Properties["C14"] = &PropertySpec{
 		Modules: bt,
 		Rules: []Rule{
+			R72(),
 			Only(R58(), `^b/`),
 			Only(R55(), `^a/`, `^d/`),
 			Only(R44(), `server\.tables`),
@@ -421,6 +422,7 @@ func init() {
 	Properties["C20"] = &PropertySpec{
 		Modules: []string{"bigtable", "storage"},
 		Rules: []Rule{
+			R72(),
 			R70(),
 			R60(),
 			Only(R59(), `^g/`, `^f/`),
